@@ -188,7 +188,12 @@ def coq_build(timeout=3000) -> float:
 
 def forbidden_scan() -> list[str]:
     hits = []
-    for p in sorted((COQ / "theories").rglob("*.v")):
+    listed = [COQ / l.strip() for l in (COQ / "_CoqProject").read_text().splitlines()
+              if l.strip().endswith(".v")]
+    for p in sorted(listed):     # the development = exactly the files _CoqProject builds
+        if not p.exists():
+            hits.append(f"{p.relative_to(COQ)}: listed in _CoqProject but missing")
+            continue
         txt = p.read_text()
         # strip comments (non-nested is enough: we do not nest them)
         txt_nc = re.sub(r"\(\*.*?\*\)", lambda m: " " * len(m.group(0)), txt, flags=re.S)
